@@ -246,8 +246,31 @@ def o114(ctx):
                                     f"but the call binds transpose={tm.show(to_term(b['transpose']))}", node, m)
 
 
+def o115(ctx):
+    """the data_type option of read: whenever it is given, the returned map has been converted to it -- unconditionally (a stored type that
+    'fits into' the requested one is still not the requested one: int8 * int8 overflows where float32 * float32 does not)"""
+    m, fn = ctx.prog.func(RD)
+    ctx.touched(RD)
+    for name in ("x/vol.mrc", "x/vol.rec", "x/vol.em"):
+        for transpose in (True, False):
+            it = Interp(ctx.prog, assume=assume_map({"data_type is not None": True, "transpose": transpose}))
+            r = it.run(RD, [K(name)], {"data_type": P("dt"), "transpose": K(transpose)})
+            t = to_term(r.ret)
+            ctx.count(1, {"file": name, "transpose": transpose, "returned": tm.show(t)[:120]})
+            if not (t.op == "call" and t.args[0] == ".astype" and len(t.args) == 3 and t.args[2] == sym("dt")):
+                conds = [n.args[0] for n in tm.walk(t) if n.op == "ite"]
+                ctx.finding(RD, "conversion to data_type", f"read({name!r}, data_type=T) must return the map converted to T whenever T is given; the "
+                            f"conversion is {'conditional on ' + tm.show(conds[0])[:120] if conds else 'missing'}", fn, m, returned=tm.show(t)[:200])
+    it = Interp(ctx.prog, assume=assume_map({"data_type is not None": False}))
+    r = it.run(RD, [K("x/vol.mrc")], {})
+    ctx.count(1)
+    if tm.has_call(to_term(r.ret), ".astype"):
+        ctx.finding(RD, "no data_type", "without data_type the map must come back in its stored type", fn, m, returned=tm.show(to_term(r.ret))[:200])
+
+
 def _obligations():
     return [
+        Obligation("O11.5", "read(data_type=T) converts to T whenever T is given (all extensions, both transpose settings), and only then", o115, floor=7),
         Obligation("O11.1", "read/write apply the same self-inverse axis permutation per option, same library per extension, narrowing, overwrite", o111, floor=30),
         Obligation("O11.2", "every extension write accepts is read back by the same library family", o112, floor=5),
         Obligation("O11.4", "em2mrc / mrc2em: data negated iff invert, default name = extension replaced, overwrite reaches write", o114, floor=60),
